@@ -16,10 +16,18 @@ import (
 
 // Unit is one compute resource unit.
 type Unit struct {
-	CPU  uint64 `json:"cpu_milli"`
-	Mem  uint64 `json:"memory"`
-	Sto  uint64 `json:"storage"`
-	Arch string `json:"cpu_arch,omitempty"` // cpu attribute
+	CPU      uint64 `json:"cpu_milli"`
+	Mem      uint64 `json:"memory"`
+	Sto      uint64 `json:"storage"`
+	CPUAttrs []KV   `json:"cpu_attributes,omitempty"`
+	MemAttrs []KV   `json:"memory_attributes,omitempty"`
+	StoAttrs []KV   `json:"storage_attributes,omitempty"`
+}
+
+// KV is one attribute of a resource, in list position.
+type KV struct {
+	K string `json:"key"`
+	V string `json:"value"`
 }
 
 const (
@@ -30,12 +38,41 @@ const (
 
 // unitAlphabet: a base unit, and units that differ from it in exactly one field by the smallest
 // possible amount.
-var unitAlphabet = []Unit{
-	{baseCPU, baseMem, baseSto, ""},
-	{baseCPU + 1, baseMem, baseSto, ""},
-	{baseCPU, baseMem + 1, baseSto, ""},
-	{baseCPU, baseMem, baseSto + 1, ""},
-	{baseCPU, baseMem, baseSto, "arm64"},
+var unitAlphabet = buildUnitAlphabet()
+
+// attrVariants: attribute lists relative to the canonical pair {class=ssd, zone=a}.
+var attrVariants = []struct {
+	name string
+	kv   []KV
+}{
+	{"canonical", []KV{{"class", "ssd"}, {"zone", "a"}}},
+	{"duplicate-first", []KV{{"class", "ssd"}, {"class", "ssd"}}}, // same length, one entry repeated in place of the other
+	{"reordered", []KV{{"zone", "a"}, {"class", "ssd"}}},
+	{"duplicate-second", []KV{{"zone", "a"}, {"zone", "a"}}},
+	{"superset", []KV{{"class", "ssd"}, {"zone", "a"}, {"tier", "x"}}},
+	{"subset", []KV{{"class", "ssd"}}},
+	{"other-value", []KV{{"class", "ssd"}, {"zone", "b"}}},
+}
+
+// attrUnitFirst is the index of the first attribute unit: unit attrUnitFirst + 3*v + r carries
+// attrVariants[v] on resource r (0 cpu, 1 memory, 2 storage), everything else as the base unit.
+const attrUnitFirst = 5
+
+func buildUnitAlphabet() []Unit {
+	us := []Unit{
+		{CPU: baseCPU, Mem: baseMem, Sto: baseSto},
+		{CPU: baseCPU + 1, Mem: baseMem, Sto: baseSto},
+		{CPU: baseCPU, Mem: baseMem + 1, Sto: baseSto},
+		{CPU: baseCPU, Mem: baseMem, Sto: baseSto + 1},
+		{CPU: baseCPU, Mem: baseMem, Sto: baseSto, CPUAttrs: []KV{{"arch", "arm64"}}},
+	}
+	for _, v := range attrVariants {
+		us = append(us,
+			Unit{CPU: baseCPU, Mem: baseMem, Sto: baseSto, CPUAttrs: v.kv},
+			Unit{CPU: baseCPU, Mem: baseMem, Sto: baseSto, MemAttrs: v.kv},
+			Unit{CPU: baseCPU, Mem: baseMem, Sto: baseSto, StoAttrs: v.kv})
+	}
+	return us
 }
 
 const (
@@ -94,9 +131,9 @@ func resourceUnits(u Unit, endpoints []int) atypes.ResourceUnits {
 		Memory:  &atypes.Memory{Quantity: atypes.NewResourceValue(u.Mem)},
 		Storage: &atypes.Storage{Quantity: atypes.NewResourceValue(u.Sto)},
 	}
-	if u.Arch != "" {
-		ru.CPU.Attributes = atypes.Attributes{{Key: "arch", Value: u.Arch}}
-	}
+	ru.CPU.Attributes = attributes(u.CPUAttrs)
+	ru.Memory.Attributes = attributes(u.MemAttrs)
+	ru.Storage.Attributes = attributes(u.StoAttrs)
 	for _, k := range endpoints {
 		kind := atypes.Endpoint_SHARED_HTTP
 		if k == kindRandom {
@@ -105,6 +142,14 @@ func resourceUnits(u Unit, endpoints []int) atypes.ResourceUnits {
 		ru.Endpoints = append(ru.Endpoints, atypes.Endpoint{Kind: kind})
 	}
 	return ru
+}
+
+func attributes(kv []KV) atypes.Attributes {
+	var out atypes.Attributes
+	for _, a := range kv {
+		out = append(out, atypes.Attribute{Key: a.K, Value: a.V})
+	}
+	return out
 }
 
 func groupSpec(g DGroup) *dtypes.GroupSpec {
